@@ -132,7 +132,7 @@ func vNativeIncompressible(fs *vrt.FS, comp int) {
 		big[i] = byte(x >> 11)
 	}
 	recs := [][]byte{{1}, big, {2}}
-	p := fs.Path("incompressible.rio")
+	p := fs.Path("incompressible" + string(rune('a'+comp)) + ".rio")
 	offs, _ := vWriteFile(fs, p, comp, 64, recs)
 	r, err := NewFileReader(ReaderPath(p), ReaderBufferSizeBytes(64))
 	vrt.Assert(err == nil && r.Open() == nil, "incompressible/reader-open-no-error")
